@@ -44,8 +44,8 @@ CHECKS = {
  "C11": ("fault_enumeration", "exhaustive enumeration of peer scripts (framings x write fragmentations x every status x every cut offset x stalls and slow-but-steady dribbling x N! answer orders) and client configurations against a hand-written loopback HTTP peer; real clients, real sockets",
          "Both clients: request side (exact POST target, Host, content-type, custom headers, Basic credentials, body = request + payload) over the product of requests x payloads x configurations x paths x schemes; response side over framings x write plans incl. every two-piece split; every 4xx/5xx; cut after every offset of header+attributes under each framing; stalls and dribbling servers (never silent for long, slower overall than the timeout) with/without timeout; the URL really contacted for 4 480 target shapes x configurations; a request changed after to_bytes(); two sends through one client; connections reset (RST) with later connections served; no failure scenario may open a second connection; response documents and request payloads of 256 MiB + 4097 (1 GiB + 4097) bytes under each framing; N concurrent senders with every answer order.",
          "Thread interleavings inside hyper/tokio/ureq are not controlled (send(&self) builds a fresh agent per call; the answer order - the only cross-request channel - is enumerated). Verdicts depend only on outcome classes stable under TCP coalescing. The system trust store is replaced by an empty one.", "DESIGN.md §5 C11"),
- "C12": ("exploration", "complete finite matrix of 960 (1920) TLS configurations, one real handshake each against a loopback TLS peer with run-time minted certificates; two builds for the two backends",
-         "{blocking, async} x {native-tls, rustls} x ignore flag {unset, false, true, true-then-false, false-then-true on one builder} x extra root {none, correct PEM, correct DER, unrelated, correct DER ending in a white-space octet, correct PEM with CRLF} x server certificate kind x target host form {localhost with a DNS SAN, 127.0.0.1 with an iPAddress SAN, and the two mismatches}, complete, plus every ordered pair of an 8-configuration subset in a fresh process; accepted iff the last ignore call said true or (correct root and valid certificate matching the target host); on rejection no application byte reaches the peer.",
+ "C12": ("exploration", "complete finite matrix of 1120 (2240) TLS configurations, one real handshake each against a loopback TLS peer with run-time minted certificates; two builds for the two backends",
+         "{blocking, async} x {native-tls, rustls} x ignore flag {unset, false, true, true-then-false, false-then-true on one builder} x extra root {none, correct PEM, correct DER, unrelated, correct DER ending in a white-space octet, correct PEM with CRLF, correct PEM with UTF-8 explanatory text around the armour} x server certificate kind x target host form {localhost with a DNS SAN, 127.0.0.1 with an iPAddress SAN, and the two mismatches}, complete, plus every ordered pair of an 8-configuration subset in a fresh process; accepted iff the last ignore call said true or (correct root and valid certificate matching the target host); on rejection no application byte reaches the peer.",
          "localhost resolves to 127.0.0.1; system trust store replaced by an empty one (SSL_CERT_FILE/SSL_CERT_DIR).", "DESIGN.md §5 C12"),
  "C18": ("exploration", "exhaustive enumeration of command lines x scripted printers on the real ipputil binary built from /repo, observed at a loopback peer",
          "Option lists of length 0..2 (3) over 12 option texts x job/user names, 24 typing witnesses (zero-padded / negative / out-of-range decimals, look-alikes) judged by an independent decimal rule; Print-Job answered with a sweep of 825 status codes; the Print-Job connection reset with later connections served (every content size, file and stdin); contents incl. BufReader boundaries and MiBs, file and stdin; all printer answer scripts (ready / stopped / blocked / IPP error / HTTP error / cut) with and without the state check. Oracle: request sequence, typed options, document octets, exit status.",
